@@ -52,10 +52,33 @@ static const struct pipe_type types[] = {
 void registry_init(void) { }
 struct uclock *registry_uclock(void) { return uclock_std_alloc(0); }
 
+/* extension files (pd_ext_*.c) may define their own pipe types and options
+ * through these weak hooks instead of editing this file */
+__attribute__((weak)) const struct pipe_type *pd_types_a(const char *name);
+__attribute__((weak)) const struct pipe_type *pd_types_b(const char *name);
+__attribute__((weak)) const struct pipe_type *pd_types_c(const char *name);
+__attribute__((weak)) const struct pipe_type *pd_types_d(const char *name);
+__attribute__((weak)) const struct pipe_type *pd_types_e(const char *name);
+__attribute__((weak)) const struct pipe_type *pd_types_f(const char *name);
+/* return true if the option was handled (and the "ret" line printed) */
+__attribute__((weak)) bool pd_option_a(struct upipe *, const struct pipe_type *, bool set, const char *name, const char *value);
+__attribute__((weak)) bool pd_option_b(struct upipe *, const struct pipe_type *, bool set, const char *name, const char *value);
+__attribute__((weak)) bool pd_option_c(struct upipe *, const struct pipe_type *, bool set, const char *name, const char *value);
+__attribute__((weak)) bool pd_option_d(struct upipe *, const struct pipe_type *, bool set, const char *name, const char *value);
+__attribute__((weak)) bool pd_option_e(struct upipe *, const struct pipe_type *, bool set, const char *name, const char *value);
+__attribute__((weak)) bool pd_option_f(struct upipe *, const struct pipe_type *, bool set, const char *name, const char *value);
+
 const struct pipe_type *registry_find(const char *name)
 {
     for (int i = 0; types[i].name; i++)
         if (!strcmp(types[i].name, name)) return &types[i];
+    const struct pipe_type *t;
+    if (pd_types_a && (t = pd_types_a(name))) return t;
+    if (pd_types_b && (t = pd_types_b(name))) return t;
+    if (pd_types_c && (t = pd_types_c(name))) return t;
+    if (pd_types_d && (t = pd_types_d(name))) return t;
+    if (pd_types_e && (t = pd_types_e(name))) return t;
+    if (pd_types_f && (t = pd_types_f(name))) return t;
     return NULL;
 }
 
@@ -85,6 +108,12 @@ static void print_dict(struct uref *d)
 void registry_option(struct upipe *upipe, const struct pipe_type *type, bool set,
                      const char *name, const char *value)
 {
+    if (pd_option_a && pd_option_a(upipe, type, set, name, value)) return;
+    if (pd_option_b && pd_option_b(upipe, type, set, name, value)) return;
+    if (pd_option_c && pd_option_c(upipe, type, set, name, value)) return;
+    if (pd_option_d && pd_option_d(upipe, type, set, name, value)) return;
+    if (pd_option_e && pd_option_e(upipe, type, set, name, value)) return;
+    if (pd_option_f && pd_option_f(upipe, type, set, name, value)) return;
     const char *t = type ? type->name : "";
     int err = UBASE_ERR_UNHANDLED;
     if (!strcmp(t, "skip") && !strcmp(name, "offset")) {
